@@ -396,18 +396,18 @@ Fixpoint tdepth (t : tree) : nat :=
 Fixpoint all_trivia (l : list token) : bool :=
   match l with [] => true | t :: r => is_trivia t && all_trivia r end.
 
-(* LuaASTEchoWriter.to_lines: the end-of-input check, the walk, the trailing spaces, the check that the
-   cursor reached the end of the token list.  Result: the chunks in order and the final cursor.
-   (Python raises the second ParserError after having yielded the complete lines; the model returns the
-   error only - what was yielded before is not observed by the property's checks, which consume all lines.) *)
+(* LuaASTEchoWriter.to_lines: the end-of-input check (no significant token at or after root.end_pos), the
+   walk, the trailing spaces.  Result: the chunks in order and the final cursor.  The code has no check that
+   the cursor reached the end of the token list (only the check before the walk): a walk that passes fewer
+   tokens than the tree spans would drop the rest without an error - as it did for a one-line `if (c) ... else`
+   with an empty else branch at the end of the program before the fix of _walk_StatIf.  Proofs/AstWriterTop.v
+   shows that inside the domain of C09_aligned the final cursor is the end of the list. *)
 Definition writer_chunks (root : tree) : result (list chunk * Z) :=
   match root with
   | Node _ _ e _ _ =>
       if negb (all_trivia (skipn (Z.to_nat e) ts)) then Err ParserError else
       match (walk (2 * tdepth root + 2) root >> spaces_to ntok) (mkW 0 0 []) with
-      | Ok st =>
-          (* the cursor must have reached the end of the token list *)
-          if w_pos st =? ntok then Ok (rev' (w_out st), w_pos st) else Err ParserError
+      | Ok st => Ok (rev' (w_out st), w_pos st)
       | Err e => Err e
       end
   | _ => Err AttributeError
